@@ -378,7 +378,10 @@ func (s *Service) servesRootPath() bool {
 }
 
 func (s *Service) createCertManager(options ServiceOptions) (CertManager, error) {
-	if !options.TLSEnabled {
+	// Certificates are only ever served by the service on the root path of a
+	// host. A service on a sub-path has TLSEnabled set because it inherits the
+	// flag from that root service, not because it has TLS settings of its own.
+	if !options.TLSEnabled || !slices.Contains(options.PathPrefixes, rootPath) {
 		return nil, nil
 	}
 
